@@ -24,7 +24,7 @@ def jobs(pid, tier, seed):
     out += [{"kind": "dirdup5", "i": i} for i in range(4)]
     n = 700 if tier == "quick" else 15000
     out += [{"kind": "dup", "seed": seed * 1000003 + i, "max": 4 if tier == "quick" else 12} for i in range(n)]
-    out += [{"kind": "dup", "seed": seed * 1000003 + 5000000 + i, "max": 6 if tier == "quick" else 14, "life": 1} for i in range(n)]
+    out += [{"kind": "dup", "seed": seed * 1000003 + 5000000 + i, "max": 6 if tier == "quick" else 14, "life": 1} for i in range(2 * n)]
     return out
 
 
